@@ -25,7 +25,7 @@ use c02::*;
 use rre_harness::*;
 
 fn rule(name: u64, sal: i64, flags: u8, cond: (char, u64, i64), acts: Vec<(char, u64, i64)>) -> RuleSpec {
-    RuleSpec { name, sal, flags, ag: None, actg: None, eff: None, exp: None, effh: How::Z, exph: How::Z, cond, acts }
+    RuleSpec { name, sal, flags, ag: None, actg: None, eff: None, exp: None, effh: How::Z, exph: How::Z, effn: 0, expn: 0, cond, acts }
 }
 
 fn gen(rng: &mut Rng, n: usize, _tier: &str) -> Vec<String> {
@@ -158,6 +158,15 @@ fn gen(rng: &mut Rng, n: usize, _tier: &str) -> Vec<String> {
     }
     for _ in 0..(n / 12).max(60) {
         out.push(gen_workflow_calls(rng));
+    }
+    // date windows at their boundaries, down to nanoseconds (c02.rs): a rule that is inside its window at the evaluation
+    // instant must fire, otherwise the call stops early at something that is not a fixpoint of the eligible rules
+    for i in 0..(n / 15).max(60) {
+        out.push(gen_boundary_walk(rng, i));
+    }
+    // the whole knowledge base replaced between executes (c02.rs): every rule of the new base takes part in the next call
+    for _ in 0..(n / 15).max(60) {
+        out.push(gen_kb_replace(rng));
     }
     out
 }
